@@ -113,8 +113,22 @@ func (l *lexer) emitUppercase(t tokenType) {
 // emitSpaceRemoved passes a token to the client, with all spaces in token value removed.
 func (l *lexer) emitSpaceRemoved(t tokenType) {
 	line, col := l.lineColumn()
-	val := make([]rune, 0, l.pos-l.start)
-	for _, r := range l.input[l.start:l.pos] {
+	text := l.input[l.start:l.pos]
+	// drop line comments that were skipped inside the token
+	for {
+		i := strings.Index(text, "//")
+		if i < 0 {
+			break
+		}
+		j := strings.Index(text[i:], "\n")
+		if j < 0 {
+			text = text[:i]
+			break
+		}
+		text = text[:i] + text[i+j:]
+	}
+	val := make([]rune, 0, len(text))
+	for _, r := range text {
 		if !unicode.IsSpace(r) {
 			val = append(val, r)
 		}
@@ -360,19 +374,19 @@ func lexComment(l *lexer) stateFn {
 func lexDataItemSize(l *lexer) stateFn {
 	numberFound := false
 	l.accept("[")
-	l.acceptRun(" \t\r\n")
+	l.skipSizeBlanks()
 	if l.accept("0123456789") {
 		numberFound = true
 		l.acceptRun("0123456789")
-		l.acceptRun(" \t\r\n")
+		l.skipSizeBlanks()
 	}
 	if strings.HasPrefix(l.input[l.pos:], "..") {
 		l.pos += 2
-		l.acceptRun(" \t\r\n")
+		l.skipSizeBlanks()
 		if l.accept("0123456789") {
 			numberFound = true
 			l.acceptRun("0123456789")
-			l.acceptRun(" \t\r\n")
+			l.skipSizeBlanks()
 		}
 	}
 	if !(l.accept("]") && numberFound) {
@@ -380,6 +394,23 @@ func lexDataItemSize(l *lexer) stateFn {
 	}
 	l.emitSpaceRemoved(tokenTypeDataItemSize)
 	return lexMessageText
+}
+
+// skipSizeBlanks skips whitespace inside a data item size, and line comments
+// at the end of the lines it spans.
+func (l *lexer) skipSizeBlanks() {
+	for {
+		l.acceptRun(" \t\r\n")
+		if !strings.HasPrefix(l.input[l.pos:], "//") {
+			return
+		}
+		i := strings.Index(l.input[l.pos:], "\n")
+		if i < 0 {
+			l.pos = len(l.input)
+			return
+		}
+		l.pos += i
+	}
 }
 
 // lexQuotedString scans a string inside double quotes.
